@@ -79,8 +79,8 @@ Apply1(op, a) ==
 (* The two-double representation                                           *)
 (***************************************************************************)
 Tol52 == RPow2(-52)
-Cap52 == RPow2(52)
-InScope(v) == RLe(RAbs(v), Cap52)                  \* counts up to 2^52
+Cap52 == RAdd(RPow2(52), RHalf)
+InScope(v) == RLe(RAbs(v), Cap52)                  \* counts up to 2^52 (and a fraction up to 1/2)
 Normalised(i, f) == RIsInt(i) /\ RLe(RAbs(f), RHalf)
 Represents(i, f, v) == RClose(RAdd(i, f), v, Tol52)
 (* the canonical normal form (round half to even); on an exact tie the     *)
